@@ -552,4 +552,19 @@ def PState.run (S : Schema) (wsPre : TypeId â†’ Bool) : PState â†’ List Event â†
     | .error err => .error err
     | .ok (st', _) => PState.run S wsPre st' es
 
+/-! ### checkable schema hypotheses of the theorems (Props/C19.lean); evaluated by the driver on every
+    schema the tie uses -/
+
+/-- no state of a content automaton has two edges with the same label -/
+def detB (S : Schema) : Bool :=
+  (List.range S.nodes.size).all (fun t => (List.range (S.dfa t).size).all (fun q =>
+    decide ((((S.dfa t).edgesOf q).map (Â·.1)).Nodup)))
+
+/-- reading a text node leads to a state with the same edges and the same acceptance -/
+def textStableB (S : Schema) : Bool :=
+  (List.range S.nodes.size).all (fun t => (List.range (S.dfa t).size).all (fun q =>
+    match (S.dfa t).matchType q S.textTy with
+    | some q' => decide ((S.dfa t).edgesOf q' = (S.dfa t).edgesOf q) && ((S.dfa t).validEnd q' == (S.dfa t).validEnd q)
+    | none => true))
+
 end PM.FromDom
